@@ -148,10 +148,25 @@ theorem C15_tempo_spec (time bpm : Int) :
   have b3 : n % 256 < 256 := Nat.mod_lt _ (by decide)
   simp [decodeMsg, d7, decodeVlq, b1, b2, b3]
 
-/-- pitch bend is 14-bit, LSB first -/
+/-- pitch bend is 14-bit, LSB first; a value outside the 14 bits is written as the nearest end of the range -/
 theorem C15_bend_bytes (e : Event) (hk : e.kind = .pitchBend) (h0 : 0 ≤ e.ch) (h1 : e.ch < 16) :
-    body e = [0xE0 + e.ch.toNat, (e.v1 % 128).toNat, (e.v1 / 128 % 128).toNat] := by
+    body e = [0xE0 + e.ch.toNat, (clamp14 e.v1 % 128).toNat, (clamp14 e.v1 / 128 % 128).toNat] := by
   simp [body, hk, status_eq _ _ h0 h1]
+
+/-- …so the two data bytes always denote `clamp14 v`: the value itself inside 0..16383, (0,0) below, (127,127) above — never a wrapped value -/
+theorem C15_bend_never_wraps (v : Int) :
+    (clamp14 v / 128 % 128) * 128 + clamp14 v % 128 = clamp14 v ∧ (0 ≤ v → v ≤ 16383 → clamp14 v = v) ∧
+      (v < 0 → clamp14 v = 0) ∧ (16383 < v → clamp14 v = 16383) := by
+  unfold clamp14
+  refine ⟨?_, ?_, ?_, ?_⟩
+  · split
+    · decide
+    · split
+      · decide
+      · omega
+  · intro h0 h1; rw [if_neg (by omega), if_neg (by omega)]
+  · intro h; rw [if_pos h]
+  · intro h; rw [if_neg (by omega), if_pos h]
 
 /-- `PitchBend(0)` is the centre 8192 = (LSB 0, MSB 64); `PitchBend(v)` is v + 8192 -/
 theorem C15_bend_centre : bendValue false 0 = 8192 ∧ ((8192:Int) % 128, (8192:Int) / 128 % 128) = (0, 64) := by decide
